@@ -334,6 +334,10 @@ func c03(env *Env, rep *Report) {
 			}
 		}
 	}
+	if gwBin() != "" && env.Shard == 0 {
+		bindCore(rep, "C03")
+		bindModes(rep, "C03")
+	}
 	rep.add("distinct", int64(distinct))
 	rep.add("states", int64(distinct))
 }
